@@ -45,7 +45,16 @@ FID_PRESET = 'wsgi:error-path-overrides-status'
 
 
 def cps(s):
-    return [ord(c) for c in s]
+    # code points for the model; a lone surrogate is not a Lean `Char`: it travels as U+FFFD (only the XML
+    # protocols are given such text, and they write U+FFFD for it; the T3 oracle works on the Python strings)
+    return [(0xFFFD if 0xD800 <= ord(c) <= 0xDFFF else ord(c)) for c in s]
+
+
+def xml_text_spec(s):
+    """specification: what an XML protocol delivers for a text — every character outside XML 1.0's Char production
+    (C0 controls but TAB/LF/CR, lone surrogates, U+FFFE, U+FFFF) as U+FFFD, everything else unchanged"""
+    ok = lambda n: n in (9, 10, 13) or 0x20 <= n <= 0xD7FF or 0xE000 <= n <= 0xFFFD or 0x10000 <= n <= 0x10FFFF
+    return ''.join(c if ok(ord(c)) else '\ufffd' for c in s)
 
 
 def uncps(l):
@@ -302,7 +311,7 @@ class Impl:
         if 'native' in r:
             # a built-in error class (or a generated subclass that overrides CODE with a sub-code) raised through
             # its own constructor
-            cls, args = r['native'][0], r['native'][1]
+            cls, args = r['native'][0], [tuple(a) if isinstance(a, list) else a for a in r['native'][1]]   # (replays: JSON lists)
             sub = r['native'][2] if len(r['native']) > 2 else None
             return (self.code_subclass(cls, sub) if sub else self.classes[cls])(*args)
         if 'redirect' in r:
@@ -809,6 +818,14 @@ def measure_facts(impl):
     rec = impl.run('json', 'm_str', AUX_WITNESS)
     d = ref_decode('json', wire_of_body('json', rec['body'])) if 'body' in rec else None
     f['auxGuarded'] = bool(d) and d['code'] == 'Client.Aux'
+    bad = []
+    for name, txt in BADCHAR_WITNESSES:
+        for p_ in ('soap11', 'soap12', 'xml'):
+            rec = impl.run(p_, 'm_str', badchar_plan(txt))
+            d = ref_decode(p_, wire_of_body(p_, rec['body'])) if 'body' in rec else None
+            if not (d and d['str'] == xml_text_spec(txt) and d['actor'] == xml_text_spec(txt)):
+                bad.append((name, p_))
+    f['xmlSanitise'], f['xmlSanitiseBad'] = (not bad), bad
     rec = impl.run('soap11', 'm_str', FALSY_WITNESS)
     d = ref_decode('soap11', wire_of_body('soap11', rec['body'])) if 'body' in rec else None
     f['emptyTest'] = 'isNone' if (d and d['detail'] == [['zero', '0'], ['no', 'False'], ['z', '0.0'], ['n', None], ['deep', [['zero', '0']]]]) else 'falsy'
@@ -828,6 +845,14 @@ def measure_facts(impl):
 
 AUX_WITNESS = {'user': {'plain': {'raises': {'fault': {'cls': 'Fault', 'code': 'Client.Aux', 'str': 'm'}}}},
                'aux': {'unserialisable': True, 'tokens': ['ZqAuxWitnessXv']}}
+BADCHAR_WITNESSES = [('control', 'a\x01b\x0bc\x1f'), ('nul', 'a\x00b'), ('high-surrogate', 'x\ud83dy'), ('low-surrogate', 'caf\udce9'),
+                     ('nonchar', 'x\ufffe\uffffy')]
+
+
+def badchar_plan(txt):
+    return {'user': {'plain': {'raises': {'fault': {'cls': 'Fault', 'code': 'Client.Text', 'str': txt, 'actor': txt}}}}, 'xmlonly': True}
+
+
 FALSY_WITNESS = {'user': {'plain': {'raises': {'fault': {'cls': 'Fault', 'code': 'Client.Z', 'str': 'm',
                                                             'detail': {'zero': 0, 'no': False, 'z': 0.0, 'n': None, 'deep': {'zero': 0}}}}}}}
 # the classes of spyne/error.py with constructor arguments (model name -> (class key, args))
@@ -922,13 +947,14 @@ def facts09 : Facts09 where
   auxGuarded := %s
   emptyTest := .%s
   ctorUsesCode := [%s]
+  xmlSanitise := %s
 
 end SpyneModel.Generated
 ''' % (', '.join('(.%s, .%s)' % ({'call': 'methodCall', 'return_object': 'returnObject'}[a], b) for a, b in f['hooksInTry']),
        ', '.join('(.%s, %d)' % kv for kv in f['dedTable']), f['clientTest'], max(f['clientStatus'], 0), max(f['defaultStatus'], 0),
        'none' if f['soapStatus'] is None else 'some %d' % f['soapStatus'], lean_text(f['genericCode']), fs,
        b(f['errorPathKeepsStatus']), lean_text(f['env11Prefix']), lean_text(f['env12Prefix']), b(f['ignoreEmptyActor']),
-       f['soap12Detail'], b(f['genFirstGuarded']), f['serErr'], f['client12Ns'], b(f['client12Strip']), f['statusAsker'], b(f['auxGuarded']), f['emptyTest'], ', '.join('.' + x for x in f['ctorUsesCode']))
+       f['soap12Detail'], b(f['genFirstGuarded']), f['serErr'], f['client12Ns'], b(f['client12Strip']), f['statusAsker'], b(f['auxGuarded']), f['emptyTest'], ', '.join('.' + x for x in f['ctorUsesCode']), b(f['xmlSanitise']))
 
 
 GOOD = {'hooksInTry': ALL_HOOKS, 'dedTable': [('tooLong', 413), ('notFound', 404), ('notAllowed', 405), ('invalidCred', 401)],
@@ -1204,6 +1230,15 @@ def fixed_cases(impl):
           F(cls='RequestNotAllowed', code='Whatever'), F(cls='InvalidCredentialsError', code='Server.Cred', detail={'realm': 'r'}),
           F(code='Weird.X'), F(code='Sender.X')]
     rs += [{'native': list(n)} for n in NATIVE]
+    # constructor arguments: tuple / 1-tuple / dict / '%'-string / None identifiers for the classes that format an object,
+    # '%'-strings and None for the ones that take the message
+    odd = [('tenant', 7), ('only',), {'k': 'v'}, '100% %s %d %(x)s', None]
+    for cls in ('ResourceNotFoundError', 'RespawnError', 'ResourceAlreadyExistsError', 'ValidationError', 'MissingFieldError', 'InternalError'):
+        rs += [{'native': [cls, [o]]} for o in odd]
+    rs += [{'native': ['InvalidInputError', ['bad', o]]} for o in odd]
+    for cls in ('InvalidCredentialsError', 'RequestTooLongError', 'RequestNotAllowed', 'ArgumentError'):
+        rs += [{'native': [cls, [o]]} for o in ('100% %s %d', None)]
+    rs += [{'native': ['InvalidCredentialsError', ['denied', None]]}]
     rs += [{'native': [cls, args, base_code(impl, cls) + '.Sub.deeper']} for cls, args in BUILTINS.values()]
     rs += [{'redirect': None}, {'redirect': 'fails'}]
     mk_other = lambda base, **kw: {'other': dict({'base': base, 'text': 'secret ZqFixedTokenAAAXv', 'type': 'ExcZqFixedTokenBBBXv',
@@ -1240,6 +1275,10 @@ def fixed_cases(impl):
     out.append(('m_str', {'user': {'plain': {'value': 'RetMarkZqAuxUnXv'}}, 'marker': 'RetMarkZqAuxUnXv', 'aux': unser}))
     out.append(('m_str', {'user': {'plain': {'raises': rs[14]}}, 'marker': 'RetMarkZqAuxUn2Xv', 'aux': unser}))
     out.append((MRPC, {'user': {'plain': {'value': 'RetMarkZqMrpcOkXv'}}, 'marker': 'RetMarkZqMrpcOkXv'}))
+    for i, (name, txt) in enumerate(BADCHAR_WITNESSES):
+        out.append(('m_str', dict(badchar_plan(txt), marker='RetMarkZqBad%dXv' % i)))
+        out.append(('m_gen', {'user': {'gen': [{'raises': badchar_plan('g' + txt)['user']['plain']['raises']}, None]}, 'marker': 'RetMarkZqBadG%dXv' % i,
+                              'xmlonly': True}))
     out.append(('m_str', {'user': {'plain': {'value': 'RetMarkZqFixedOkXv'}}, 'marker': 'RetMarkZqFixedOkXv'}))
     for i, sw in enumerate(SWAPPABLE):
         for j, r in enumerate((rs[0], rs[1], rs[15], rs[-1])):
@@ -1296,6 +1335,8 @@ def exc_json(o):
 
 def raised_json(impl, r, inst):
     """model form of what is raised; `inst` = the exception object actually built (None when unknown)"""
+    if isinstance(inst, CtorFailed):
+        return {'other': exc_json({'base': type(inst.exc).__name__, 'text': str(inst.exc)})}
     if 'fault' in r or 'native' in r:
         return {'fault': {'cls': impl.cls_flags(inst), 'f': fault_json(inst)}}
     if 'redirect' in r:
@@ -1323,10 +1364,22 @@ def build_insts(impl, plan):
     out = []
     for r in raised_of(plan):
         if 'fault' in r or 'native' in r:
-            out.append(impl.build_exception(None, r))
+            try:
+                out.append(impl.build_exception(None, r))
+            except Exception as e:      # the constructor of a built-in error class raised
+                out.append(CtorFailed(r, e))
         else:
             out.append(None)
     return out
+
+
+class CtorFailed(object):
+    def __init__(self, r, exc):
+        self.r, self.exc = r, exc
+
+
+RES_TEMPLATES = {'ResourceNotFoundError': 'Requested resource %r not found', 'RespawnError': 'Requested resource %r not found',
+                 'ResourceAlreadyExistsError': 'Resource %r already exists'}
 
 
 # ------------------------------------------------------------------------------------ T3 oracle
@@ -1362,7 +1415,10 @@ class Oracle:
         if 'escaped' in rec:
             e = rec['escaped']
             fid = 'escape:%s:%s:%s' % (proto, where, type(e).__name__ if 'other' not in r else 'other')
-            if self.actor_none_case(proto, r):
+            if 'fault' in r and proto in XMLISH and not self.facts['xmlSanitise'] and \
+                    xml_text_spec(r['fault']['str'] + (r['fault'].get('actor') or '')) != r['fault']['str'] + (r['fault'].get('actor') or ''):
+                fid = 'xml:unrepresentable-char-in-fault-text'
+            elif self.actor_none_case(proto, r):
                 fid = FID_ACTOR_NONE
             elif plan.get('aux', {}).get('unserialisable') and not self.facts['auxGuarded']:
                 fid = 'wsgi:auxiliary-failure-breaks-response'
@@ -1385,6 +1441,16 @@ class Oracle:
             case = dict(case, parse_error=repr(e)[:200])
         later_fid = FID_SER_ERR if (where == 'gen-later' and self.facts['serErr'] != 'funnelled') else None
         preset = plan.get('preset')
+        if ('fault' in r or 'native' in r) and isinstance(insts[0], CtorFailed):
+            root = CTOR_ROOT.get(r['native'][0], r['native'][0])
+            self.fail('ctor:args:' + root, 'constructing %s%r raises %s inside the user code: the client gets the generic Server fault instead of %s'
+                      % (r['native'][0], tuple(r['native'][1]), type(insts[0].exc).__name__, self.impl.classes[r['native'][0]].CODE), case)
+            return
+        if 'native' in r and r['native'][0] in RES_TEMPLATES and len(r['native'][1]) == 1 and len(r['native']) == 2:
+            want_msg = RES_TEMPLATES[r['native'][0]] % (r['native'][1][0],)
+            if insts[0].faultstring != want_msg:
+                self.fail('ctor:args:' + r['native'][0], '%s(%r) has the message %r instead of %r'
+                          % (r['native'][0], r['native'][1][0], insts[0].faultstring, want_msg), case)
         if 'fault' in r or 'native' in r:
             inst = insts[0]
             want = documented_status(self.impl, proto, inst)
@@ -1409,7 +1475,8 @@ class Oracle:
                               % (r['native'][0], r['native'][2], dec['code']), case)
             elif dec['code'] != inst.faultcode:
                 self.fail(later_fid or 'intact:%s:code' % proto, 'fault code %r arrives as %r' % (inst.faultcode, dec['code']), case)
-            if dec['str'] != inst.faultstring:
+            want_str = xml_text_spec(inst.faultstring) if proto in XMLISH else inst.faultstring
+            if dec['str'] != want_str:
                 self.fail(later_fid or 'intact:%s:message' % proto, 'fault message %r arrives as %r' % (inst.faultstring, dec['str']), case)
             exp = expected_detail(proto, inst.detail, self.facts)
             if MODEL_PROTO[proto] == 'http':
@@ -1482,7 +1549,9 @@ class Oracle:
             self.fail('client:%s:no-in-error' % proto, 'ctx.in_error is None on the client although the server answered with a fault', case)
             return
         if 'fault' in r or 'native' in r:
-            code, msg = insts[0].faultcode, insts[0].faultstring
+            if isinstance(insts[0], CtorFailed):
+                return
+            code, msg = insts[0].faultcode, xml_text_spec(insts[0].faultstring)
         else:
             code, msg = 'Server', 'Internal Error'
         got = ie.faultcode
@@ -1565,6 +1634,13 @@ def run(ctx):
         ctx.hit('fact-bad:xmlNoneActor')
         ctx.finding(FID_ACTOR_NONE, 'a Fault raised with faultactor=None cannot be written by the XML protocols: TypeError escapes the WSGI application',
                     {'case': {'via': 'wsgi', 'proto': 'soap11', 'shape': 'm_str', 'plan': ACTOR_NONE_WITNESS}, 'fact': 'xmlNoneActor'})
+    if not f['xmlSanitise']:
+        name, p_ = f['xmlSanitiseBad'][0]
+        txt = dict(BADCHAR_WITNESSES)[name]
+        ctx.hit('fact-bad:xmlSanitise')
+        ctx.finding('xml:unrepresentable-char-in-fault-text', 'a Fault whose message / actor holds a character XML cannot carry (%s: %r) is not '
+                    'delivered by %s with U+FFFD in its place (failing classes: %r)' % (name, txt, p_, f['xmlSanitiseBad']),
+                    {'case': {'via': 'wsgi', 'proto': p_, 'shape': 'm_str', 'plan': badchar_plan(txt)}, 'fact': 'xmlSanitise'})
     for b, (cls, args) in BUILTINS.items():
         if b not in f['ctorUsesCode']:
             ctx.hit('fact-bad:ctorUsesCode:' + b)
@@ -1626,6 +1702,8 @@ def run(ctx):
     for proto, shape, plan in cases:
         if plan.get('swap') and (plan['swap'] == proto or proto not in SWAPPABLE):
             continue
+        if plan.get('xmlonly') and (plan.get('swap') or proto) not in XMLISH:
+            continue
         if not plan_allowed(plan.get('swap') or proto, plan):
             ctx.hit('skipped:outside-wire-vocabulary')
             continue
@@ -1652,7 +1730,7 @@ def run(ctx):
     loop_cases = []
     for proto in ('soap11', 'soap12', 'msgpackrpc'):
         for shape, plan in fixed:
-            if plan.get('swap'):
+            if plan.get('swap') or (plan.get('xmlonly') and proto not in XMLISH):
                 continue
             if shape in ('m_str', 'm_void') or (shape == 'm_gen' and proto != 'msgpackrpc'):
                 loop_cases.append((proto, shape, plan))
@@ -1726,7 +1804,7 @@ def run_case(ctx, impl, oracle, add, via, proto, shape, plan, rec, insts):
         kind, err = snap
         add({'op': 'process', 'user': uj},
             {'out_object': kind, 'out_error': None if err is None else {'cls': impl.cls_flags(err), 'f': fault_json(err)}})
-        if err is not None and insts and insts[0] is not None and where == 'plain':
+        if err is not None and insts and insts[0] is not None and not isinstance(insts[0], CtorFailed) and where == 'plain':
             # the same object (class, code, message, detail), and no return value assigned
             ok = type(err) is type(insts[0]) and fault_json(err) == fault_json(insts[0]) and kind == 'unset'
             if not ok:
